@@ -5,6 +5,11 @@ import PhysisModel.Proofs.Layer
 import PhysisModel.Proofs.Tera
 import PhysisModel.Proofs.TeraFloat
 import PhysisModel.Proofs.Pbd
+import PhysisModel.Proofs.HavokInt
+import PhysisModel.Proofs.HavokBits
+import PhysisModel.Proofs.HavokExtract
+import PhysisModel.Proofs.HavokFlat
+import PhysisModel.Proofs.Sklb
 /-!
 # C16 — auxiliary asset decoders return the stored records
 Property theorems only; helper lemmas live in `Proofs/`.
@@ -188,6 +193,223 @@ example : Spec.Layer.encode ⟨0x3142474c, 0x3150474c, 261, [0x50,0x6c,0x61,0x6e
     [0x4c,0x47,0x42,0x31, 0x2d,0,0,0, 1,0,0,0, 0x4c,0x47,0x50,0x31, 0x18,0,0,0, 5,1,0,0, 0x10,0,0,0,
      0x10,0,0,0, 0,0,0,0, 0x50,0x6c,0x61,0x6e,0x4c,0x69,0x76,0x65, 0] := by decide
 example : Spec.Layer.WF ⟨0x3142474c, 0x3150474c, 261, [0x50,0x6c,0x61,0x6e,0x4c,0x69,0x76,0x65]⟩ := by decide
+
+/-! ## skeletons: Havok binary tag files (`src/havok/binary_tag_file_reader.rs`) -/
+
+/-- `read_packed_int` returns every `i32` other than `i32::MIN` that the format's packed encoding
+holds, written in any admissible number of bytes (`w` = the writer's minimum width, at most five
+bytes are ever produced), and stops exactly behind it. -/
+theorem c16_packed_int (w : Nat) (n : Int) (r : Bytes) (h : Spec.HavokTag.InRange n) :
+    Havok.readPackedInt (Spec.HavokTag.encodePackedIntW w n ++ r) = some (n, r) :=
+  Havok.readPackedInt_encode w n r h
+
+example : Spec.HavokTag.InRange (-8192) := by decide
+example : Spec.HavokTag.encodePackedInt (-8192) = [0x81, 0x80, 0x01] := by decide
+example : Spec.HavokTag.encodePackedIntW 5 300 = [0xD8, 0x84, 0x80, 0x80, 0x00] := by decide
+
+/-- `read_bit_field(count)` consumes `ceil(count / 8)` bytes (`count` below 2^32 - 7) and returns, for
+`i < count`, bit `i mod 8` of byte `i div 8`, least significant bit first. -/
+theorem c16_bitfield (count : Nat) (b : Bytes) (hc : count + 7 < 2 ^ 32) (hb : (count + 7) / 8 ≤ b.length) :
+    Havok.readBitField count b =
+      some (((b.take ((count + 7) / 8)).flatMap (Havok.lsb · 8)).take count, b.drop ((count + 7) / 8)) :=
+  Havok.readBitField_eq count b hc hb
+
+/-- the existence bits of `n` members take exactly `ceil(n / 8)` bytes and are read back; the reader
+stops exactly behind them (also when `n` is a multiple of 8, and for `n = 0`). -/
+theorem c16_bitfield_roundtrip (bits : List Bool) (r : Bytes) (h : bits.length + 7 < 2 ^ 32) :
+    (Spec.HavokTag.encodeBits bits).length = (bits.length + 7) / 8 ∧
+    Havok.readBitField bits.length (Spec.HavokTag.encodeBits bits ++ r) = some (bits, r) :=
+  ⟨Havok.encodeBits_length _ bits (Nat.le_refl _), Havok.readBitField_encode bits r h⟩
+
+example : Spec.HavokTag.encodeBits [true, false, false, true, false, false, false, true] = [0x89] := by
+  rw [Havok.encodeBits_cons]
+  simp only [List.drop_succ_cons, List.drop_zero, Havok.encodeBits_nil]
+  decide
+example : Havok.readBitField 8 [0x89, 0x55] = some ([true, false, false, true, false, false, false, true], [0x55]) := by
+  decide
+
+/-! ## skeletons: `Skeleton::from_existing` on a whole file -/
+
+/-- Parsing a skeleton file returns every bone's name, parent index and reference position, rotation
+and scale (f32 bit patterns): for both container versions (any header ids, any gap in front of the
+Havok data), any number of bones, arbitrary names (UTF-8), parent indices (any `i32` but `i32::MIN`)
+and poses, every packed-integer width and every choice of string back references the format allows
+(`p`) - for tag files with the standard skeleton type table (`Spec.HavokTag.stdFile`).
+
+Full statement (property C16): the same for Havok tag files with *arbitrary* type tables, i.e. for
+every `f : TagFile` with `Spec.HavokTag.wf f`, `¬ usesUnimplemented [] f` and `bonesOf f = some bones`:
+`Sklb.fromExisting (Spec.Sklb.encode h (encode p f)) = .ok (bones.map toBone)`.  That generalisation is
+covered by the differential correspondence only (`skel` cases), hence `_partial`. -/
+theorem c16_skeleton_partial (h : Spec.Sklb.Header) (p : Spec.HavokTag.Enc) (s : Spec.HavokTag.Skel)
+    (hh : h.WF) (hs : s.WF) :
+    Sklb.fromExisting (Spec.Sklb.encode h (Spec.HavokTag.encode p (Spec.HavokTag.stdFile s))) =
+      .ok (s.bones.map fun b => Havok.toBone b.bone) := by
+  rw [Sklb.fromExisting_encode h _ hh, Havok.read_std p s hs]
+  simp only [Havok.extract_std]
+
+/-- the specification's reading of the standard file is the list of bones it was built from -/
+theorem c16_skeleton_spec (s : Spec.HavokTag.Skel) :
+    Spec.HavokTag.bonesOf (Spec.HavokTag.stdFile s) = some (s.bones.map (·.bone)) :=
+  Havok.bonesOf_std s
+
+/-- a two-bone skeleton (`n_root`, `n_hara`), old container version, shortest integers, back references -/
+example : Spec.Sklb.Header.WF ⟨Spec.Sklb.vOld, 0, 0, 101, 0, 0, 0, [0xAA, 0xBB]⟩ := by decide
+example : Spec.HavokTag.Skel.WF ⟨[115, 107], [104, 107], 0,
+    [⟨⟨[110, 95, 114, 111, 111, 116], -1, (0, 0, 0), (0, 0, 0, 0x3F800000), (0x3F800000, 0x3F800000, 0x3F800000)⟩,
+        0, 0x3F800000, 0⟩,
+     ⟨⟨[110, 95, 104, 97, 114, 97], 0, (0, 0x3F800000, 0), (0, 0, 0, 0x3F800000), (0x3F800000, 0x3F800000, 0x3F800000)⟩,
+        0, 0x3F800000, 1⟩]⟩ := by
+  refine ⟨by decide, by decide, by decide, by decide, ?_⟩
+  intro b hb
+  simp only [List.mem_cons, List.not_mem_nil, or_false] at hb
+  rcases hb with rfl | rfl <;> exact ⟨by decide, by decide⟩
+
+/-- ARBITRARY type tables, declaration part: on the encoding of any run of well-formed type
+declarations `ts` (any names, versions, parents among the types known so far, any number of members
+of any kind incl. tuple sizes and class names; any packed-integer width, any string back references)
+the reader's tag loop ends up with exactly the types the declarations describe - `members()` of each
+type = its parent's `members()` followed by its own (`Havok.buildTypes`, `Havok.toT`) -, with the
+encoder's string table as remembered strings, and continues exactly behind the declarations. -/
+theorem c16_type_table (p : Spec.HavokTag.Enc) (ts : List Spec.HavokTag.TypeDecl) (fuel : Nat) (st : Havok.St)
+    (decls : List Spec.HavokTag.TypeDecl) (items : List Spec.HavokTag.Item) (r : Bytes) (types' : List Havok.HType)
+    (hok : ∀ t ∈ ts, Havok.typeOK t = true) (hb : Havok.buildTypes st.types ts = some types') :
+    Havok.tagLoop (fuel + ts.length) st
+        (Spec.HavokTag.encItems p st.strings decls (ts.map Spec.HavokTag.Item.type ++ items) ++ r) =
+      Havok.tagLoop fuel { st with strings := Havok.tblAfter p st.strings ts, types := types' }
+        (Spec.HavokTag.encItems p (Havok.tblAfter p st.strings ts) (decls ++ ts) items ++ r) :=
+  Havok.tagLoop_types p ts fuel st decls items r types' hok hb
+
+/-- the standard table: seven declarations, `hkaSkeleton` ends up with 2 inherited + 8 own members -/
+example : Havok.buildTypes [Havok.objectType] Spec.HavokTag.stdTypes = some Havok.stdHTypes ∧
+    (∀ t ∈ Spec.HavokTag.stdTypes, Havok.typeOK t = true) ∧ Havok.hSkeleton.all.length = 10 := by decide
+
+/-- ARBITRARY type tables, objects with flat members: for an object of any declared type (any number
+of inherited and own members of any kind) whose *present* members are scalars (BYTE, INT, REAL, STRING,
+OBJECT) or arrays of those or of vectors, with any subset of the other members absent (`flatAllOK`,
+`flatData ≠ none`: every absent member has a default), the tag loop remembers exactly the object the
+file describes - stored values, defaults for absent members (`Havok.flatData`) -, takes over the
+encoder's string table, records every object index it read (`Havok.boundAll`) and continues exactly
+behind the object; for every packed-integer width and back-reference policy.  (Objects with STRUCT
+arrays: proved for the standard classes only, see `c16_skeleton_partial`.) -/
+theorem c16_object_flat (p : Spec.HavokTag.Enc) (fuel : Nat) (st : Havok.St) (decls : List Spec.HavokTag.TypeDecl)
+    (ti : Nat) (t : Havok.HType) (vs : List Spec.HavokTag.Val) (items : List Spec.HavokTag.Item) (r : Bytes)
+    (data : List (Nat × Havok.Value)) (hver : st.ver = 3) (hti : ti < 2 ^ 31) (htype : st.types[ti]? = some t)
+    (hall : t.all = (Spec.HavokTag.membersOf decls ti).map Havok.toM) (hlen : vs.length + 7 < 2 ^ 32)
+    (hok : Havok.flatAllOK (Spec.HavokTag.membersOf decls ti) vs)
+    (hd : Havok.flatData (Spec.HavokTag.membersOf decls ti) vs 0 = some data) :
+    Havok.tagLoop (fuel + 1) st (Spec.HavokTag.encItems p st.strings decls (.obj ti vs :: items) ++ r) =
+      Havok.tagLoop fuel
+        { st with strings := (Spec.HavokTag.encFields p st.strings
+                    ((Spec.HavokTag.membersOf decls ti).map (·.ty)) vs).2,
+                  refBound := Havok.boundAll st.refBound (Spec.HavokTag.membersOf decls ti) vs,
+                  objs := st.objs ++ [⟨t, data⟩] }
+        (Spec.HavokTag.encItems p (Spec.HavokTag.encFields p st.strings
+            ((Spec.HavokTag.membersOf decls ti).map (·.ty)) vs).2 decls items ++ r) :=
+  Havok.tagLoop_object_flat p fuel st decls ti t vs items r data hver hti htype hall hlen hok hd
+
+/-- the animation container of the standard file: two absent INTs (defaults 0), one reference array,
+four absent reference arrays (defaults empty) -/
+example : Havok.flatAllOK (Spec.HavokTag.membersOf Spec.HavokTag.stdTypes 5)
+      [.absent, .absent, .refs [3], .absent, .absent, .absent, .absent] ∧
+    Havok.hContainer.all = (Spec.HavokTag.membersOf Spec.HavokTag.stdTypes 5).map Havok.toM := by
+  refine ⟨?_, by decide⟩
+  rw [show Spec.HavokTag.membersOf Spec.HavokTag.stdTypes 5 =
+    Spec.HavokTag.tReferenced.members ++ Spec.HavokTag.tContainer.members from by decide]
+  simp [Havok.flatAllOK, Havok.flatOK, Spec.HavokTag.tReferenced, Spec.HavokTag.tContainer, Spec.HavokTag.Val.present,
+    Spec.HavokTag.isArray, Spec.HavokTag.baseType]
+
+/-! ### recorded finding `havok-unimplemented-member-kind` -/
+
+/-- `lodLevels` -/
+def n_lodLevels : Bytes := [108, 111, 100, 76, 101, 118, 101, 108, 115]
+
+/-- the standard skeleton file with one more member in `hkaSkeleton`, a TUPLE of two INTs, which the
+skeleton object instantiates (values 1, 2); two bones `n_root`, `n_hara` -/
+def tupleFile : Spec.HavokTag.TagFile :=
+  open Spec.HavokTag in
+  [tRoot, tNamedVariant, tBase, tReferenced, tContainer,
+    { tSkeleton with members := tSkeleton.members ++ [⟨n_lodLevels, 0x22, 2, []⟩] }, tBone].map Item.type ++
+  [.obj 1 [.structs 1 [.strs [n_hkaAnimationContainer], .strs [n_hkaAnimationContainer], .refs [2]]],
+   .obj 5 [.absent, .absent, .refs [3], .absent, .absent, .absent, .absent],
+   .obj 6 [.absent, .absent, .str [115, 107], .ints 0 [-1, 0],
+     .structs 2 [.strs [[110, 95, 114, 111, 111, 116], [110, 95, 104, 97, 114, 97]], .bytes [0, 1]],
+     .vecs [[0, 0, 0, 0, 0, 0, 0, 0x3F800000, 0x3F800000, 0x3F800000, 0x3F800000, 0],
+            [0x3F800000, 0, 0, 0, 0, 0, 0, 0x3F800000, 0x3F800000, 0x3F800000, 0x3F800000, 0]],
+     .absent, .absent, .absent, .absent, .ints 0 [1, 2]]]
+
+/-- The finding on a concrete input: the file is well formed, it describes two bones, it instantiates
+a TUPLE member - and the reader (model of the code) panics instead of returning the bones.  The real
+code panics on the same bytes (`corpus/C16/havok.case`, last case: `unimplemented 34`). -/
+theorem c16_skeleton_unimplemented_witness :
+    Spec.HavokTag.wf tupleFile = true ∧ Spec.HavokTag.usesUnimplemented [] tupleFile = true ∧
+    (Spec.HavokTag.bonesOf tupleFile).map (·.map (·.name)) =
+      some [[110, 95, 114, 111, 111, 116], [110, 95, 104, 97, 114, 97]] ∧
+    Sklb.fromExisting (Spec.Sklb.encode ⟨Spec.Sklb.vOld, 0, 0, 101, 0, 0, 0, []⟩
+      (Spec.HavokTag.encode ⟨0xFFFF, 1⟩ tupleFile)) = .panic := by
+  decide +kernel
+
+/-! ### recorded finding `havok-array-length-guard` -/
+
+/-- `extraBones` -/
+def n_extraBones : Bytes := [101, 120, 116, 114, 97, 66, 111, 110, 101, 115]
+
+/-- the standard skeleton file with one more member in `hkaSkeleton`, a STRUCT array of `hkaBone`, which
+the skeleton object fills with 100 elements that store nothing (both columns absent) -/
+def datalessFile : Spec.HavokTag.TagFile :=
+  open Spec.HavokTag in
+  [tRoot, tNamedVariant, tBase, tReferenced, tContainer,
+    { tSkeleton with members := tSkeleton.members ++ [⟨n_extraBones, 0x19, 0, n_hkaBone⟩] }, tBone].map Item.type ++
+  [.obj 1 [.structs 1 [.strs [n_hkaAnimationContainer], .strs [n_hkaAnimationContainer], .refs [2]]],
+   .obj 5 [.absent, .absent, .refs [3], .absent, .absent, .absent, .absent],
+   .obj 6 [.absent, .absent, .str [115, 107], .ints 0 [-1, 0],
+     .structs 2 [.strs [[110, 95, 114, 111, 111, 116], [110, 95, 104, 97, 114, 97]], .bytes [0, 1]],
+     .vecs [[0, 0, 0, 0, 0, 0, 0, 0x3F800000, 0x3F800000, 0x3F800000, 0x3F800000, 0],
+            [0x3F800000, 0, 0, 0, 0, 0, 0, 0x3F800000, 0x3F800000, 0x3F800000, 0x3F800000, 0]],
+     .absent, .absent, .absent, .absent, .structs 100 [.absent, .absent]]]
+
+/-- The finding on a concrete input: a well-formed file that uses implemented member kinds only and
+describes two bones; its last array has 100 elements but only two bytes follow its element count
+(the existence bits and the end tag), and the reader's length guard (`array_len > remaining input`,
+added against unbounded allocation) panics instead of returning the bones. -/
+theorem c16_skeleton_length_guard_witness :
+    Spec.HavokTag.wf datalessFile = true ∧ Spec.HavokTag.usesUnimplemented [] datalessFile = false ∧
+    Spec.HavokTag.hasDatalessStructArray datalessFile = true ∧
+    Spec.HavokTag.itemTails ⟨0xFFFF, 1⟩ Spec.HavokTag.initStrings [] datalessFile =
+      [(1, 139), (1, 131), (2, 122), (2, 118), (2, 100), (100, 2)] ∧
+    Spec.HavokTag.guardTrips ⟨0xFFFF, 1⟩ datalessFile = true ∧
+    (Spec.HavokTag.bonesOf datalessFile).map (·.map (·.name)) =
+      some [[110, 95, 114, 111, 111, 116], [110, 95, 104, 97, 114, 97]] ∧
+    Sklb.fromExisting (Spec.Sklb.encode ⟨Spec.Sklb.vOld, 0, 0, 101, 0, 0, 0, []⟩
+      (Spec.HavokTag.encode ⟨0xFFFF, 1⟩ datalessFile)) = .panic := by
+  decide +kernel
+
+/-! ### recorded finding `havok-int-beyond-i32` -/
+
+/-- the standard skeleton file whose animation container has `referenceCount = 2^40` (Havok INT members
+can hold 64-bit values; six bytes in the packed encoding) -/
+def wideFile : Spec.HavokTag.TagFile :=
+  open Spec.HavokTag in
+  stdTypes.map Item.type ++
+  [.obj 1 [.structs 1 [.strs [n_hkaAnimationContainer], .strs [n_hkaAnimationContainer], .refs [2]]],
+   .obj 5 [.absent, .int (2 ^ 40), .refs [3], .absent, .absent, .absent, .absent],
+   .obj 6 [.absent, .absent, .str [115, 107], .ints 0 [-1, 0],
+     .structs 2 [.strs [[110, 95, 114, 111, 111, 116], [110, 95, 104, 97, 114, 97]], .bytes [0, 1]],
+     .vecs [[0, 0, 0, 0, 0, 0, 0, 0x3F800000, 0x3F800000, 0x3F800000, 0x3F800000, 0],
+            [0x3F800000, 0, 0, 0, 0, 0, 0, 0x3F800000, 0x3F800000, 0x3F800000, 0x3F800000, 0]],
+     .absent, .absent, .absent, .absent]]
+
+/-- The finding on a concrete input: a well-formed file that describes two bones and stores one INT
+value outside `i32`; `read_packed_int` keeps a `u32` and shifts by 34 on the sixth byte (overflow
+panic in the profile the tests use; a wrapped shift and a garbage value otherwise). -/
+theorem c16_skeleton_wide_int_witness :
+    Spec.HavokTag.wf wideFile = true ∧ Spec.HavokTag.usesUnimplemented [] wideFile = false ∧
+    Spec.HavokTag.usesWideInt wideFile = true ∧
+    (Spec.HavokTag.bonesOf wideFile).map (·.map (·.name)) =
+      some [[110, 95, 114, 111, 111, 116], [110, 95, 104, 97, 114, 97]] ∧
+    Spec.HavokTag.encodePackedInt (2 ^ 40) = [0x80, 0x80, 0x80, 0x80, 0x80, 0x40] ∧
+    Sklb.fromExisting (Spec.Sklb.encode ⟨Spec.Sklb.vOld, 0, 0, 101, 0, 0, 0, []⟩
+      (Spec.HavokTag.encode ⟨0xFFFF, 1⟩ wideFile)) = .panic := by
+  decide +kernel
 
 end Physis.C16
 
